@@ -434,6 +434,10 @@ func (w *e2World) trace() []vs.Step { return append([]vs.Step(nil), w.s.Trace...
 // describeTrace renders the last n decisions with source locations.
 func (w *e2World) describeTrace(n int) string {
 	tr := w.s.Trace
+	// a spinning actor at the end says nothing: drop the repetition of the last two (actor, point) pairs
+	for len(tr) > 4 && tr[len(tr)-1] == tr[len(tr)-3] && tr[len(tr)-2] == tr[len(tr)-4] {
+		tr = tr[:len(tr)-2]
+	}
 	if len(tr) > n {
 		tr = tr[len(tr)-n:]
 	}
